@@ -183,7 +183,8 @@ class IntervalProd(Set):
             return self.mid_pt
         elif inp in self:
             if self.ndim == 1:
-                return float(inp)
+                # `inp` may be a length-1 sequence, which `__contains__` accepts
+                return float(np.asarray(inp, dtype=float).item())
             else:
                 return np.asarray(inp)
         else:
